@@ -106,22 +106,33 @@ def table(ids, jobs=3):
         meta = json.load(open(os.path.join(VERIF, "seeded", i, "meta.json")))
         return i, {meta["property"]: rc}, out
     rows = []
+    cache = os.path.join(VERIF, "seeded", "catches.json")      # results so far (a long table is built over several invocations)
+    known = json.load(open(cache)) if os.path.exists(cache) else {}
+
+    def write():
+        with open(os.path.join(VERIF, "seeded", "CATCHES.md"), "w") as f:
+            f.write("# Seeded changes and what reports them\n\nGenerated by `tools/seedtest.py table` (each change applied to a scratch copy of /repo HEAD, "
+                    "`./check <property> --tier quick` with ACN_REPO pointing at the copy). D = failing deductive obligation (named), B = firing clause of a "
+                    "bounded run-time monitor. Only the first few of each are listed.\n\n")
+            f.write("| change | property | exit | summary | deductive obligations | monitor clauses |\n|---|---|---|---|---|---|\n")
+            for i in sorted(known):
+                r = known[i]
+                esc = lambda xs: "<br>".join(x.replace("|", "\\|")[:160] for x in xs[:3]) or "-"
+                f.write(f"| {i} | {r['property']} | {r['exit']} | {r['summary']} | {esc(r['deductive'])} | {esc(r['bounded'])} |\n")
+        json.dump(known, open(cache, "w"), indent=0, sort_keys=True)
+
     with cf.ThreadPoolExecutor(jobs) as ex:
-        for i, res, out in ex.map(one, ids):
+        futs = {ex.submit(one, i): i for i in ids}
+        for fut in cf.as_completed(futs):
+            i, res, out = fut.result()
             meta = json.load(open(os.path.join(VERIF, "seeded", i, "meta.json")))
             ded = [l.strip()[3:] for l in out.splitlines() if l.strip().startswith("D:")]
             bnd = [l.strip()[3:] for l in out.splitlines() if l.strip().startswith("B:")]
             head = next((l for l in out.splitlines() if " vs " in l), "")
             rows.append((i, meta["property"], res.get(meta["property"]), head.split(": ", 1)[-1], ded, bnd))
+            known[i] = dict(property=meta["property"], exit=res.get(meta["property"]), summary=head.split(": ", 1)[-1], deductive=ded, bounded=bnd)
+            write()
             print(head, flush=True)
-    with open(os.path.join(VERIF, "seeded", "CATCHES.md"), "w") as f:
-        f.write("# Seeded changes and what reports them\n\nGenerated by `tools/seedtest.py table` (each change applied to a scratch copy of /repo HEAD, "
-                "`./check <property> --tier quick` with ACN_REPO pointing at the copy). D = failing deductive obligation (named), B = firing clause of a "
-                "bounded run-time monitor. Only the first few of each are listed.\n\n")
-        f.write("| change | property | exit | summary | deductive obligations | monitor clauses |\n|---|---|---|---|---|---|\n")
-        for i, prop, rc, head, ded, bnd in sorted(rows):
-            esc = lambda xs: "<br>".join(x.replace("|", "\\|")[:160] for x in xs[:3]) or "-"
-            f.write(f"| {i} | {prop} | {rc} | {head} | {esc(ded)} | {esc(bnd)} |\n")
     missed = [r[0] for r in rows if r[2] != 1]
     print("not reported with exit 1:", missed)
 
